@@ -338,6 +338,9 @@ def crash_body(ctx):
 
 # ------------------------------------------------------------------------------------------------
 # (c) explicit-state BFS over all interleavings of N loaders (+ <=1 crash, <=1 fault)
+_TOLERANT = [False]     # replay of a recorded schedule on a tree whose loader has fewer / other steps: skip what does not exist
+
+
 def _replay_events(home, cfgs, init, events):
     """build a fresh world and apply the event history; returns the world"""
     prepare(home, init)
@@ -350,6 +353,8 @@ def _replay_events(home, cfgs, init, events):
         lc.gzip = c["gzip"]
     w.max_net_calls = max(c["n_retries"] for c in cfgs) + 2
     for ev in events:
+        if _TOLERANT[0] and ev[1] not in w.enabled():
+            continue
         if ev[0] == "run":
             w.step(ev[1])
         elif ev[0] == "net":
@@ -447,8 +452,18 @@ def _expand(item):
 @kind("schedule")
 def check_schedule(case):
     cfgs, init, events = case["cfgs"], case["init"], [tuple(e) for e in case["events"]]
-    key, en, fails, terminal = _expand((cfgs, init, events, {"crashes": 1, "faults": 1}))
-    return fails
+    # a recorded schedule is a list of scheduler decisions; on a tree whose loader takes other steps the decisions that
+    # no longer exist are skipped and the remaining loaders are run to completion, lowest id first
+    _TOLERANT[0] = True
+    try:
+        for _ in range(400):
+            key, en, fails, terminal = _expand((cfgs, init, events, {"crashes": 1, "faults": 1}))
+            if fails or not en:
+                return fails
+            events = events + [min((e for e in en if e[0] == "run" or (e[0] == "net" and e[2] == "good")), key=lambda e: e[1])]
+        return []
+    finally:
+        _TOLERANT[0] = False
 
 
 def bfs(name, cfgs, init, budget, max_states=None):
@@ -575,6 +590,7 @@ def check_pair(case):
 
 
 def replay(case):
+    from checks import c19_cross, c19_model  # noqa: F401  (their case kinds register on import)
     return _replay(case)
 
 
